@@ -157,9 +157,12 @@ CLAIMED = {
         technique="Lean 4 model of the pipeline as a function of the random tape + exact tape-replay correspondence; "
                   "statistical validation labelled as such",
         note="PARTIAL: PRNG contracts (numpy Generator.choice = inverse CDF on Generator.random, stdlib random) are "
-             "trusted and self-tested each run (the limit theorems assume an ideal i.i.d. uniform tape; no law of "
-             "large numbers is proved for the rejection loop of sample_N_inputs as a whole, only for its selection "
-             "step and the detector law). Known finding F13 (Sampler.sample ignores heralds). The PostSelection object "
+             "trusted and self-tested each run (the limit theorems assume an ideal i.i.d. uniform tape). For the rejection "
+             "loop of sample_N_inputs as a whole: the renewal decomposition is proved at model level "
+             "(sampleNInputs_renewal: the result is the list of accepted pass outcomes) and the strong law for accepted "
+             "fraction and conditional state frequencies is proved for pairwise independent identically distributed "
+             "passes (rejection_loop_frequencies); that the passes of a loop consuming one i.i.d. tape in order ARE "
+             "i.i.d. is a hypothesis there, not a theorem (single-pass law: selection step and detector law are proved). Known finding F13 (Sampler.sample ignores heralds). The PostSelection object "
              "the sampling methods apply is modelled as a state machine (LW.Model.PostSel; theorems in "
              "LW/Properties/PostSel.lean, also for rules sharing a mode) and compared call by call with the implementation.",
         ref="§5 C07, §13.8"),
